@@ -701,6 +701,8 @@ pub struct TreeStats {
     pub max_depth: usize,
     pub depth_cap_hits: u64,
     pub exec_cap_hit: bool,
+    /// see `explore::State::after_stop`
+    pub after_stop: Option<(String, Vec<crate::explore::Node>)>,
 }
 
 /// Explore the whole choice tree of `prog`, calling `visit` for every execution.
@@ -798,6 +800,7 @@ pub fn explore_program<F: Family>(
         max_depth: s.max_depth,
         depth_cap_hits: s.depth_cap_hits,
         exec_cap_hit: capped,
+        after_stop: ex.after_stop(),
     })
 }
 
